@@ -9,7 +9,10 @@ import argparse
 import importlib
 import json
 import os
+import pickle
+import subprocess
 import sys
+import tempfile
 
 HERE = os.path.dirname(os.path.abspath(__file__))
 VERIF = os.path.dirname(HERE)
@@ -34,11 +37,85 @@ def _bind_tree():
     return tree
 
 
+# ambient configurations: the module's small exploration is repeated in fresh interpreters that differ in something
+# no operation of the alphabet changes - the interpreter's flags, the level of the models' logger
+AMBIENT = [{'pyflags': ['-O'], 'env': {}},
+           {'pyflags': [], 'env': {'VERIF_LOGGER_LEVEL': '10'}},
+           {'pyflags': [], 'env': {'VERIF_LOGGER_LEVEL': '30'}}]
+
+
+def _ambient_active(amb):
+    if '-O' in amb.get('pyflags', ()) and sys.flags.optimize < 1:
+        return False
+    return all(os.environ.get(k) == v for k, v in amb.get('env', {}).items())
+
+
+def _ambient_name(amb):
+    return ' '.join(['python'] + list(amb.get('pyflags', ())) + [f'{k}={v}' for k, v in sorted(amb.get('env', {}).items())])
+
+
+def replay_one(mod, pid, case):
+    """Replays one recorded case; returns None (holds) or (message, known-finding id).  A case found by an ambient
+    leg ({'ambient': {...}, 'case': ...}) is replayed in an interpreter started the same way."""
+    from mc.engine.report import Violation
+    if isinstance(case, dict) and 'ambient' in case:
+        amb = case['ambient']
+        if not _ambient_active(amb):
+            r = subprocess.run([sys.executable] + list(amb.get('pyflags', ())) +
+                               [os.path.abspath(__file__), pid, '--replay-inner'], input=json.dumps(case),
+                               capture_output=True, text=True,
+                               env=dict(os.environ, PYTHONHASHSEED='0', **amb.get('env', {})))
+            lines = [ln for ln in r.stdout.splitlines() if ln.startswith('REPLAY-RESULT ')]
+            if not lines:
+                raise RuntimeError(f'replay child failed: {r.stdout[-400:]} {r.stderr[-400:]}')
+            out = json.loads(lines[-1][len('REPLAY-RESULT '):])
+            return None if out is None else tuple(out)
+        case = case['case']
+    try:
+        mod.replay(case)
+        return None
+    except Violation as v:
+        return (v.msg, v.known)
+
+
+def ambient_legs(ctx, mod, pid):
+    if not getattr(mod, 'AMBIENT_LEGS', False):
+        return
+    with tempfile.TemporaryDirectory(prefix='verif-ambient-') as d:
+        procs = []
+        for i, amb in enumerate(AMBIENT):
+            out = os.path.join(d, f'export{i}.pickle')
+            procs.append((amb, out, subprocess.Popen(
+                [sys.executable] + list(amb['pyflags']) + [os.path.abspath(__file__), pid, '--tier', 'quick',
+                                                           '--ambient-child', out],
+                stdout=subprocess.PIPE, stderr=subprocess.STDOUT, text=True,
+                env=dict(os.environ, PYTHONHASHSEED='0', **amb['env']))))
+        for amb, out, pr in procs:
+            text, _ = pr.communicate()
+            if pr.returncode != 0 or not os.path.exists(out):
+                print(f'HARNESS-ERROR: exploration under {_ambient_name(amb)} failed: {text[-1200:]}')
+                sys.exit(2)
+            with open(out, 'rb') as f:
+                exp = pickle.load(f)
+            for v in exp['violations']:
+                v['case'] = {'ambient': amb, 'case': v['case']}
+                v['msg'] = f'[{_ambient_name(amb)}] ' + v['msg']
+            summary = {'states': exp['states'], 'transitions': exp['transitions'], 'executions': exp['traces'],
+                       'legs_run': sorted({lg['leg'] for lg in exp['legs']})}
+            exp['legs'] = []
+            exp['samples'] = []
+            exp['caps'] = []
+            ctx.merge(exp)
+            ctx.leg('ambient: ' + _ambient_name(amb), **summary)
+
+
 def main():
     ap = argparse.ArgumentParser()
     ap.add_argument('prop')
     ap.add_argument('--tier', default=os.environ.get('VERIF_TIER') or 'quick', choices=['quick', 'thorough'])
     ap.add_argument('--replay')
+    ap.add_argument('--replay-inner', action='store_true', help=argparse.SUPPRESS)
+    ap.add_argument('--ambient-child', help=argparse.SUPPRESS)
     args = ap.parse_args()
     _reexec_with_fixed_hashseed()
     try:
@@ -54,17 +131,26 @@ def main():
     pid = args.prop.upper()
     mod = importlib.import_module(f'mc.props.{pid.lower()}')
 
+    if args.replay_inner:
+        out = replay_one(mod, pid, json.loads(sys.stdin.read()))
+        print('REPLAY-RESULT ' + json.dumps(out))
+        sys.exit(0)
+
+    if args.ambient_child:
+        ctx = Ctx(pid, 'quick', seed, tree)
+        ctx.small = True
+        mod.run(ctx)
+        with open(args.ambient_child, 'wb') as f:
+            pickle.dump(ctx.export(), f)
+        sys.exit(0)
+
     if args.replay:
         with open(args.replay) as f:
             rec = json.load(f)
         case = rec['case']
         msgs = []
         for _ in range(2):
-            try:
-                mod.replay(case)
-                msgs.append(None)
-            except Violation as v:
-                msgs.append((v.msg, v.known))
+            msgs.append(replay_one(mod, pid, case))
         if msgs[0] != msgs[1]:
             print(f'note: the two replays of {args.replay} differ ({msgs}): the behaviour depends on something outside the '
                   f'recorded case')
@@ -80,6 +166,8 @@ def main():
     ctx = Ctx(pid, args.tier, seed, tree)
     try:
         mod.run(ctx)
+        if not ctx.violations:
+            ambient_legs(ctx, mod, pid)
     except HarnessError as e:
         print(f'HARNESS-ERROR: {e}')
         sys.exit(2)
@@ -98,10 +186,10 @@ def main():
         outs = []
         for _ in range(2):
             try:
-                mod.replay(v['case'])
-                outs.append(None)
-            except Violation as r:
-                outs.append(r.msg)
+                r = replay_one(mod, pid, v['case'])
+                outs.append(None if r is None else
+                            (f'[{_ambient_name(v["case"]["ambient"])}] ' if isinstance(v['case'], dict) and
+                             'ambient' in v['case'] else '') + r[0])
             except HarnessError as e:
                 outs.append(f'HARNESS:{e}')
         if outs[0] is None and outs[1] is None:
